@@ -220,6 +220,7 @@ func cmdReplay(args []string) int {
 type knownFinding struct {
 	Property   string `json:"property"`
 	Match      string `json:"match"`       // substring every oracle message of the violation must contain
+	MatchAll   []string `json:"match_all,omitempty"` // further substrings, all required
 	ExecStatus string `json:"exec_status"` // execution status of the failing run (ok, deadlock, crash)
 	CrashMatch string `json:"crash_match,omitempty"`
 	What       string `json:"what"`
@@ -241,6 +242,15 @@ func knownMatch(known []knownFinding, id string, v *vrt.Violation) *knownFinding
 				st = "ok"
 			}
 			if st != v.Status || !strings.Contains(m, k.Match) {
+				continue
+			}
+			all := true
+			for _, sub := range k.MatchAll {
+				if !strings.Contains(m, sub) {
+					all = false
+				}
+			}
+			if !all {
 				continue
 			}
 			if k.CrashMatch != "" && (v.Crash == nil || !strings.Contains(v.Crash.Value+v.Crash.Stack, k.CrashMatch)) {
